@@ -387,9 +387,16 @@ def stub_walk(chk: Check):
                                                          for k in range(7)]
                 dec.decode_message_payload(b"prime")
                 AutoDecoder.payload_decoder_functions = fns
-            res = dec.decode_message_payload(b"x")
-            got = res["by"] if isinstance(res, dict) else 0
-            pa = names.index(dec.previous_success_decoder) + 1 if dec.previous_success_decoder else 0
+            try:
+                res = dec.decode_message_payload(b"x")
+                got = res["by"] if isinstance(res, dict) else 0
+            except Exception as ex:  # noqa: BLE001 - an exception is an answer of the code under test, never of the harness
+                got = f"raised {type(ex).__name__}"
+            try:
+                psd = dec.previous_success_decoder
+                pa = names.index(psd) + 1 if psd else 0
+            except Exception as ex:  # noqa: BLE001
+                pa = f"raised {type(ex).__name__}"
             n += 1
             if got != tr["result"] or pa != tr["prev_after"]:
                 chk.violation("auto-gen", f"spec->code: from remembered decoder {tr['prev']} with accepting decoders {sorted(acc)} the AutoDecoder used "
